@@ -103,6 +103,14 @@ def bodies(country: str, tier: str, fillers):
             for ch in reg.CLASS_CHARS[cl[p]]:
                 if ch != b[p]:
                     yield b[:p] + ch + b[p + 1:]
+        if f == "distinct":
+            # value relationships: one field copied into another field of the same width
+            spans = sorted((sp, n) for n, sp in c.positions.items() if n != "national_checksum_digits")
+            for (sa, na), (sb, nb) in itertools.permutations(spans, 2):
+                if sa[1] - sa[0] == sb[1] - sb[0] and not (set(range(*sb)) & cps):
+                    nbody = b[:sb[0]] + b[sa[0]:sa[1]] + b[sb[1]:]
+                    if c.matches(nbody):
+                        yield nbody
         if tier == "thorough" and f in ("distinct", "letters"):
             red = {"n": "059", "a": "AMZ", "c": "09AZ"}
             for p, q in itertools.combinations(free, 2):
